@@ -8,6 +8,8 @@ for l in open('/verif/properties.jsonl'):
     if p['id'] == pid: break
 else: raise SystemExit('no such property')
 outroot = sys.argv[2] if len(sys.argv) > 2 else 'out'
+diversity = ("Earlier reviewers have already tried the most obvious slips in the central code path (swapped conditions in the hot loop, a `while` turned into an `if`, a dropped re-check, a moved assignment). Prefer LESS obvious places this time: alternate constructors / entry points / wrapper classes that reach the same functionality, rarely used parameters and their defaults, unusual but legal argument values and sizes, error and clean-up paths, behaviour on the second call after an error or after the end, the interplay with native asyncio features (plain asyncio tasks, Task.cancel(), asyncio.timeout, futures), state that survives from one use of an object to the next."
+             if len(sys.argv) > 3 and sys.argv[3] == 'diverse' else "")
 wt = f'/tmp/wt/{pid}'; out = f'/tmp/wt/{outroot}/{pid}'
 print(f"""You are helping to evaluate a verification tool for the Python library AnyIO (agronholm/anyio, asyncio backend; trio is NOT installed here). Your job is to play the role of a developer who introduces a subtle regression.
 
@@ -25,7 +27,8 @@ YOUR TASK: produce TWO different, independent changes (mutations) to the library
   2. still imports/compiles, and still passes the existing test suite (every test that passes without your change must still pass with it), and
   3. is REALISTIC: it should look like a plausible refactoring slip, optimisation, off-by-one, forgotten case or mis-ordered statement - not sabotage, not a `if magic_value:` special case, no new env vars, no randomness, and
   4. is SUBTLE: it must need something specific to manifest - a particular interleaving of tasks/threads, a cancellation or fault arriving at a particular point, a multi-step sequence of operations, an unusual input or configuration, or two cooperating sites that each look fine alone. A change that ordinary straightforward use of the API would expose at once is NOT what we want (the existing tests would usually catch those anyway).
-The two changes should use different mechanisms / touch different logic, so that they are not variants of each other. Keep each change small (typically 1-15 changed lines).
+The two changes should use different mechanisms / touch different logic, so that they are not variants of each other.
+{diversity} Keep each change small (typically 1-15 changed lines).
 
 For EACH of the two changes deliver, in {out}/A/ and {out}/B/ respectively:
   - patch.diff : a unified diff produced with `git -C {wt} diff` (must apply cleanly with `git apply` to the pristine worktree HEAD; paths relative to the repo root, e.g. src/anyio/...).
